@@ -34,7 +34,9 @@ func drive(c *fw.Ctx, scenario string, bound int, run func(x *explore.Exec, owne
 		}
 		x := explore.NewExec(c.Replay.Choices)
 		run(x, true)
-		fmt.Fprintf(os.Stderr, "replayed execution: %d points\n", len(x.Trace))
+		if os.Getenv("VERIF_REPLAY_AFTER") != "" {
+			fmt.Fprintf(os.Stderr, "replayed execution: %d points\n", len(x.Trace))
+		}
 		return explore.Stats{Execs: 1}
 	}
 	if only := os.Getenv("VERIF_ONLY_SCENARIO"); only != "" && !strings.Contains(scenario, only) {
